@@ -22,6 +22,12 @@ def run(ctx):
     PV.a7_pairing(ctx)
     PV.a7_zip_alignment(ctx)
     PV.a8_memo_key_coherence(ctx)
+    PV.a9_factory_output_as_is(ctx)
+    PV.a10_call_computes_children(ctx)
+    PV.a12_guard_reads_the_parameter(ctx)
+    ctx.floor("A9", 1)
+    ctx.floor("A10", 2)
+    ctx.floor("A12", 1)
     # labels that are looked up / marked empty resolve to the class they were given for
     T.check_lookup_totality(ctx)
     ctx.floor("T1", 6)
